@@ -99,23 +99,36 @@ def render_chunk(ch, owned_items=()):
     return s + ")"
 
 
-def render_fci(f, owned=False):
+def with_probes(calls, r, p=0.4):
+    """the same calls with `(probe)` (a size query / scratch write on the builder as configured so
+    far, a no-op for the final configuration) inserted at random positions"""
+    if r is None: return list(calls)
+    out = []
+    for c in calls:
+        if r.random() < p: out.append("(probe)")
+        out.append(c)
+    if r.random() < p: out.append("(probe)")
+    return out
+
+
+def render_fci(f, owned=False, r=None, probe=False):
     k = f["k"]
+    P = (lambda cs: with_probes(cs, r)) if probe else (lambda cs: cs)
     if k == "nack":
-        return "(nack%s)" % "".join(f" (add {s})" for s in f["seqs"])
+        return "(nack%s)" % "".join(" " + c for c in P([f"(add {s})" for s in f["seqs"]]))
     if k == "fir":
-        return "(fir%s)" % "".join(f" (add {s} {q})" for s, q in f["entries"])
+        return "(fir%s)" % "".join(" " + c for c in P([f"(add {s} {q})" for s, q in f["entries"]]))
     if k == "sli":
-        return "(sli%s)" % "".join(f" (add {a} {b} {c})" for a, b, c in f["entries"])
+        return "(sli%s)" % "".join(" " + c for c in P([f"(add {a} {b} {c})" for a, b, c in f["entries"]]))
     if k == "rpsi":
         s = "(rpsi"
         calls = []
         if "pt" in f:
             calls.append(f"(payload_type {f['pt']})")
         if "data" in f:
-            nm = "native_data_owned" if owned else "native_data"
+            nm = "native_data_owned" if owned else ("native_data_vec" if (probe or f.get("vec")) and (r is None or r.random() < 0.5) else "native_data")
             calls.append(f"({nm} {B(f['data'])} {f['overrun']})")
-        return s + "".join(" " + c for c in calls) + ")"
+        return s + "".join(" " + c for c in P(calls)) + ")"
     if k == "pli":
         return "(pli)"
     raise ValueError(k)
@@ -135,6 +148,7 @@ def setter_calls(cfg):
             if key in cfg: c.append((nm, f"({nm} {cfg[key]})"))
     elif k in ("rr", "sdes", "bye", "custom"):
         if "padding" in cfg: c.append(("padding", f"(padding {cfg['padding']})"))
+        if k == "custom" and cfg.get("some0"): c.append(("pad_style", "(pad_style some0)"))
     elif k == "unknown":
         if "padding" in cfg: c.append(("padding", f"(padding {cfg['padding']})"))
         if "count" in cfg: c.append(("count", f"(count {cfg['count']})"))
@@ -154,22 +168,24 @@ def render(cfg, r=None, style="canon"):
     if k == "pb":
         return f"(pb {render(cfg['inner'], r, style)})"
     if k == "compound":
-        return "(compound%s)" % "".join(" " + render(m, r, style) for m in cfg["members"])
+        ms = [render(m, r, style) for m in cfg["members"]]
+        if style == "probe": ms = with_probes(ms, r, 0.5)
+        return "(compound%s)" % "".join(" " + m for m in ms)
     if k == "chunk":
         owned = set(range(len(cfg["items"]))) if style == "owned" else ()
         return render_chunk(cfg, owned)
     if k == "item":
         return render_item(cfg, owned=(style == "owned"))
     if k in ("nack", "fir", "sli", "rpsi", "pli"):
-        return render_fci(cfg, owned=(style == "owned"))
+        return render_fci(cfg, owned=(style == "owned"), r=r, probe=(style == "probe"))
     head = {"app": lambda: f"(app {cfg['ssrc']} {B(cfg['name'])}",
             "bye": lambda: "(bye",
             "rr": lambda: f"(rr {cfg['ssrc']}",
             "sr": lambda: f"(sr {cfg['ssrc']}",
             "sdes": lambda: "(sdes",
             "unknown": lambda: f"(unknown {cfg['type']} {B(cfg['data'])}",
-            "tfb": lambda: f"(tfb {'owned' if style == 'owned' else cfg.get('mode', 'borrowed')} {render_fci(cfg['fci'], style == 'owned')}",
-            "pfb": lambda: f"(pfb {'owned' if style == 'owned' else cfg.get('mode', 'borrowed')} {render_fci(cfg['fci'], style == 'owned')}",
+            "tfb": lambda: f"(tfb {'owned' if style == 'owned' else cfg.get('mode', 'borrowed')} {render_fci(cfg['fci'], style == 'owned', r, style == 'probe')}",
+            "pfb": lambda: f"(pfb {'owned' if style == 'owned' else cfg.get('mode', 'borrowed')} {render_fci(cfg['fci'], style == 'owned', r, style == 'probe')}",
             "custom": lambda: f"(custom {cfg['pt']} {cfg['min']} {B(cfg['body'])}"}[k]()
     setters = [c for _, c in setter_calls(cfg)]
     adders = []
@@ -188,6 +204,8 @@ def render(cfg, r=None, style="canon"):
         decoys = []
         for c in setters:
             name = c[1:].split(" ")[0]
+            if name == "pad_style":
+                continue
             if name in ("padding",):
                 decoys.append(f"(padding {r.choice([0, 4, 8, 252, 3])})")
             elif name in ("subtype", "count"):
@@ -205,6 +223,10 @@ def render(cfg, r=None, style="canon"):
         s2 = setters[:]
         r.shuffle(s2)
         calls = interleave(r, s2, adders, keep_first_order=True)
+    elif style == "probe" and r is not None:
+        s2 = setters[:]
+        r.shuffle(s2)
+        calls = with_probes(interleave(r, s2, adders, keep_first_order=True), r)
     else:
         calls = setters + adders
     return head + "".join(" " + c for c in calls) + ")"
@@ -430,7 +452,9 @@ def cfg_custom(r, unknown_pt_only=False):
     pt = r.choice([192, 199, 207, 208, 242, 255, 0] if unknown_pt_only else CUSTOM_PTS)
     x = r.random()
     bl = 4 * r.randint(0, 6) if x < 0.9 else r.choice([1, 2, 3, 5, 6, 7])
-    return {"k": "custom", "pt": pt, "min": r.choice(CUSTOM_MINS), "body": r_bytes(r, bl), "padding": r_padding(r)}
+    c = {"k": "custom", "pt": pt, "min": r.choice(CUSTOM_MINS), "body": r_bytes(r, bl), "padding": r_padding(r)}
+    if r.random() < 0.3: c["some0"] = True     # a third-party writer whose get_padding() says Some(0)
+    return c
 
 
 PACKET_CFGS = {"sr": cfg_sr, "rr": cfg_rr, "bye": cfg_bye, "app": cfg_app, "sdes": cfg_sdes, "unknown": cfg_unknown,
